@@ -52,6 +52,12 @@ type SharedSpec struct {
 	Src  string
 }
 
+// ZeroFact: an assumed property of the zero value of an external type (e.g. an empty bytes.Buffer has written nothing).
+type ZeroFact struct {
+	Var, Type string
+	E         *SExpr
+}
+
 type LoopSpec struct {
 	Invariants []Clause
 	Decreases  *Clause
@@ -105,6 +111,7 @@ type PureFunc struct {
 	Abstract bool // no body: uninterpreted
 	Stable   bool // abstract function that does not depend on the object's state version
 	BVOnly   bool // body is bit-level: outside bit-vector mode the function is opaque
+	Role     bool // abstract function shared by every receiver type that declares it (same uninterpreted symbol)
 	Opaque   bool // definition hidden (uninterpreted) unless the function under verification reveals it
 	File     string
 	Line     int
@@ -140,6 +147,7 @@ type ContractFile struct {
 	Secrets  []string
 	Sinks    []string
 	Raw      []string
+	ZeroFacts []ZeroFact
 	WriteSets []string
 	GhostVars map[string]string
 	Tables   map[string]*OracleTable
@@ -151,7 +159,7 @@ var clauseKeywords = map[string]bool{
 	"loop": true, "inline": true, "mode": true, "recovers": true, "diverges": true, "trusted": true,
 	"nosafe": true, "use": true, "monitor": true, "ghost": true, "case": true, "secret": true,
 	"sink": true, "flag": true, "const": true, "protects": true, "invariant": true, "abstract": true,
-	"inlinecalls": true, "inst": true, "reveal": true, "shared": true, "ghostvar": true, "rows": true, "oracle": true, "row": true, "writeset": true,
+	"inlinecalls": true, "inst": true, "reveal": true, "shared": true, "ghostvar": true, "zerofact": true, "rows": true, "oracle": true, "row": true, "writeset": true,
 }
 
 func firstWord(s string) string {
@@ -237,6 +245,9 @@ func ParseContractFile(path string) (*ContractFile, error) {
 			cf.Funcs = append(cf.Funcs, curF)
 			curL, curM = nil, nil
 		case w == "pure" || w == "abstract":
+			if w == "pure" && strings.HasPrefix(rest, "stable ") {
+				// a concrete, state-independent property of a type (not part of its abstraction)
+			}
 			stable, bvOnly := false, false
 			if strings.HasPrefix(rest, "stable ") {
 				stable = true
@@ -245,6 +256,11 @@ func ParseContractFile(path string) (*ContractFile, error) {
 			if strings.HasPrefix(rest, "bv ") {
 				bvOnly = true
 				rest = strings.TrimSpace(strings.TrimPrefix(rest, "bv "))
+			}
+			role := false
+			if strings.HasPrefix(rest, "role ") {
+				role = true
+				rest = strings.TrimSpace(strings.TrimPrefix(rest, "role "))
 			}
 			opaque := false
 			if strings.HasPrefix(rest, "opaque ") {
@@ -259,6 +275,7 @@ func ParseContractFile(path string) (*ContractFile, error) {
 			pf.Stable = stable
 			pf.BVOnly = bvOnly
 			pf.Opaque = opaque
+			pf.Role = role
 			if w == "abstract" {
 				pf.Abstract = true
 			}
@@ -311,6 +328,21 @@ func ParseContractFile(path string) (*ContractFile, error) {
 				vals = append(vals, v)
 			}
 			t.Rows[k] = vals
+		case w == "zerofact":
+			// zerofact (b *Buffer) expr : holds for a freshly allocated zero value of the type
+			j := strings.Index(rest, ")")
+			if !strings.HasPrefix(rest, "(") || j < 0 {
+				return nil, fail(l, "zerofact (x *T) expr")
+			}
+			f := strings.Fields(rest[1:j])
+			if len(f) != 2 {
+				return nil, fail(l, "zerofact (x *T) expr")
+			}
+			e, err := ParseExpr(strings.TrimSpace(rest[j+1:]))
+			if err != nil {
+				return nil, fail(l, "%v", err)
+			}
+			cf.ZeroFacts = append(cf.ZeroFacts, ZeroFact{Var: f[0], Type: strings.TrimPrefix(f[1], "*"), E: e})
 		case w == "ghostvar":
 			f := strings.Fields(rest)
 			if len(f) != 2 {
@@ -679,6 +711,10 @@ func parsePure(s string) (*PureFunc, error) {
 		if err != nil {
 			return nil, fmt.Errorf("%v in body of %s", err, pf.Name)
 		}
+		recvName = ""
+		if pf.Recv != nil {
+			recvName = pf.Recv.Name
+		}
 		pf.Rec = mentionsCall(pf.Body, pf.Name)
 	} else {
 		pf.Abstract = true
@@ -686,11 +722,16 @@ func parsePure(s string) (*PureFunc, error) {
 	return pf, nil
 }
 
+var recvName string // receiver identifier of the pure function being analysed
+
 func mentionsCall(e *SExpr, name string) bool {
 	if e == nil {
 		return false
 	}
 	if e.K == "call" && e.X != nil && e.X.K == "ident" && e.X.Name == name {
+		return true
+	}
+	if e.K == "call" && e.X != nil && e.X.K == "sel" && e.X.Name == name && e.X.X != nil && e.X.X.K == "ident" && e.X.X.Name == recvName {
 		return true
 	}
 	if mentionsCall(e.X, name) || mentionsCall(e.Y, name) || mentionsCall(e.Z, name) {
